@@ -373,6 +373,20 @@ class PageBreakCalculator(BaseModel):
                         header_text, total_width, font_size=int(font_size)
                     )  # type: ignore
 
+            # Rows the page_by heading needs when this row opens a page on which
+            # its group merely continues (the heading is repeated at the top)
+            continuation_rows = 0
+            if page_by and not page_by_changes[row_idx]:
+                header_parts = [
+                    f"{col}: {df[col][row_idx]}"
+                    for col in page_by
+                    if str(df[col][row_idx]) != "-----"
+                ]
+                if header_parts:
+                    continuation_rows = self._calculate_header_rows(
+                        " | ".join(header_parts), total_width, font_size=int(font_size)
+                    )  # type: ignore
+
             total_rows = max_lines_in_row + pageby_rows + subline_rows
 
             row_metadata_list.append(
@@ -383,6 +397,7 @@ class PageBreakCalculator(BaseModel):
                     "subline_header_rows": subline_rows,
                     "column_header_rows": 0,  # To be filled later or passed in
                     "total_rows": total_rows,
+                    "continuation_header_rows": continuation_rows,
                     "page": 0,  # To be assigned
                     "is_group_start": page_by_changes[row_idx] if page_by else False,
                     "is_subline_start": subline_by_changes[row_idx]
@@ -399,6 +414,7 @@ class PageBreakCalculator(BaseModel):
             "subline_header_rows": pl.Int64,
             "column_header_rows": pl.Int64,
             "total_rows": pl.Int64,
+            "continuation_header_rows": pl.Int64,
             "page": pl.Int64,
             "is_group_start": pl.Boolean,
             "is_subline_start": pl.Boolean,
@@ -432,6 +448,7 @@ class PageBreakCalculator(BaseModel):
         available_rows = max(1, self.pagination.nrow - additional_rows_per_page)
         current_page = 1
         current_rows = 0
+        rows_on_page = 0
 
         # We need to iterate and update 'page' column
         # Convert to list of dicts for mutable iteration
@@ -453,11 +470,14 @@ class PageBreakCalculator(BaseModel):
 
             if (
                 force_break or (current_rows + row_height > available_rows)
-            ) and current_rows > 0:
+            ) and rows_on_page > 0:
                 current_page += 1
-                current_rows = 0
+                # A group that continues on the new page repeats its heading there
+                current_rows = row.get("continuation_header_rows", 0)
+                rows_on_page = 0
 
             row["page"] = current_page
             current_rows += row_height
+            rows_on_page += 1
 
         return pl.DataFrame(rows)
